@@ -835,6 +835,28 @@ func (e *Enc) next(fr *Frame, x *ssa.Next, st *State) {
 	// map iteration: a present key with its value
 	val, has, m := e.mapRegs(rng.X.Type())
 	mref := e.val(fr, rng.X).t()
+	if con := e.topCon(); con != nil && con.opts["map-ranges-complete"] == "true" {
+		// opt-in (the function does not modify a map while ranging over it, by inspection): the loop visits every key
+		// exactly once, in some order that is a function of the key set: iteration n yields mapkey(m, n), it ends after
+		// len(m) iterations, and every present key has an index
+		n, hasN := fr.rangeCount[rng]
+		if !hasN {
+			n = tb.Int(0)
+		}
+		row := tb.Select(e.reg(st, has), mref)
+		card := e.mapLen(st, mref)
+		okT := tb.And(tb.Not(tb.Eq(mref, tb.Int(0))), tb.Lt(n, card))
+		k := e.mapEnumKey(row, n)
+		e.assume(tb.True(), tb.Imp(okT, tb.Select(row, k)))
+		e.mapEnumAxiom(row, card, m)
+		v := tb.Select(tb.Select(e.reg(st, val), mref), k)
+		e.assumeWF(tb.True(), m.Elem(), v)
+		e.assumeWF(tb.True(), m.Key(), k)
+		fr.rangeCount[rng] = tb.Add(n, tb.Int(1))
+		fr.vals[x] = Val{T: []*Term{okT, k, v}}
+		e.modelled("option map-ranges-complete: a range over a Go map visits every key exactly once (the map is not modified during the loop, by inspection)")
+		return
+	}
 	k := e.fresh("next_k", m.Key())
 	v := tb.Select(tb.Select(e.reg(st, val), mref), k)
 	e.assumeWF(tb.True(), m.Elem(), v)
@@ -1005,4 +1027,33 @@ func (e *Enc) globalInitFacts(g *ssa.Global, t types.Type, c *Term) {
 		}
 	}
 	e.modelled("package-level variable " + g.Name() + " keeps the constants it is initialised with (no other store in the repository)")
+}
+
+// mapEnumKey: the key a complete range over a map with key set `row` yields in iteration n.
+func (e *Enc) mapEnumKey(row, n *Term) *Term {
+	_, ks := arrayElemSortPair(row.sort)
+	return e.tb.Func("mapenum_key_"+sanitize(row.sort), []string{row.sort, "Int"}, ks, row, n)
+}
+
+func arrayElemSortPair(s string) (string, string) {
+	is, es := arrayElemSort(s)
+	_ = es
+	return es, is
+}
+
+// mapEnumAxiom: every present key is visited (has an index below the length), once per key set term.
+func (e *Enc) mapEnumAxiom(row, card *Term, m *types.Map) {
+	tb := e.tb
+	if e.mapEnumDone == nil {
+		e.mapEnumDone = map[*Term]bool{}
+	}
+	if e.mapEnumDone[row] {
+		return
+	}
+	e.mapEnumDone[row] = true
+	ks := e.sortOf(m.Key())
+	kk := tb.BoundVar("mk", ks)
+	idx := tb.Func("mapenum_idx_"+sanitize(row.sort), []string{row.sort, ks}, "Int", row, kk)
+	body := tb.Imp(tb.Select(row, kk), tb.And(tb.Le(tb.Int(0), idx), tb.Lt(idx, card), tb.Eq(e.mapEnumKey(row, idx), kk)))
+	e.assume(tb.True(), tb.Forall([]*Term{kk}, body))
 }
